@@ -4,10 +4,40 @@ from . import core, suites
 from .c18 import tables_suite
 
 
-def ops_correspondence(res, scratch, cmd, tier, label, min_ops):
+def run_driver_parallel(ops, mod, header_lines=0, jobs=12):
+    """answer an ops file with several driver processes (the header lines, e.g. `setorder`, are repeated for every chunk)"""
+    lines = open(ops, errors="replace").read().split("\n")
+    if lines and lines[-1] == "":
+        lines.pop()
+    header, body = lines[:header_lines], lines[header_lines:]
+    n = max(1, min(jobs, len(body) // 200 + 1))
+    size = (len(body) + n - 1) // n
+    procs = []
+    for k in range(n):
+        chunk = body[k * size:(k + 1) * size]
+        fin, fout = f"{ops}.{k}", f"{mod}.{k}"
+        open(fin, "w").write("\n".join(header + chunk) + "\n")
+        procs.append((subprocess.Popen([core.DRIVER_BIN, "ops"], stdin=open(fin), stdout=open(fout, "w"), stderr=subprocess.PIPE), fin, fout))
+    rc, errs = 0, ""
+    with open(mod, "w") as out:
+        for k, (p, fin, fout) in enumerate(procs):
+            e = p.communicate()[1]
+            rc |= p.returncode
+            errs += e.decode(errors="replace")[-200:]
+            ans = open(fout, errors="replace").read().split("\n")
+            if ans and ans[-1] == "":
+                ans.pop()
+            ans = ans[(header_lines if k > 0 else 0):]
+            out.write("\n".join(ans) + ("\n" if ans else ""))
+            os.unlink(fin)
+            os.unlink(fout)
+    return rc, errs
+
+
+def ops_correspondence(res, scratch, cmd, tier, label, min_ops, extra_args=(), header_lines=0):
     """harness writes ops + impl answers; the Lean driver answers the same ops; compare line by line."""
     ops, imp, mod = [os.path.join(scratch, f"{label}.{x}") for x in ("ops", "impl", "model")]
-    rc, out, err, _ = core.harness([cmd, ops, imp, tier], timeout=3000)
+    rc, out, err, _ = core.harness([cmd, ops, imp, tier] + list(extra_args), timeout=3000)
     stats = {}
     samples = []
     for l in out.splitlines():
@@ -19,8 +49,7 @@ def ops_correspondence(res, scratch, cmd, tier, label, min_ops):
     if rc != 0:
         res.add(core.ob(f"{label}: harness", "correspondence", False, err[-800:]))
         return stats, samples, []
-    with open(ops) as fin, open(mod, "w") as fout:
-        p = subprocess.run([core.DRIVER_BIN, "ops"], stdin=fin, stdout=fout, stderr=subprocess.PIPE)
+    drc, derr = run_driver_parallel(ops, mod, header_lines)
     diffs = []
     n = 0
     with open(ops, errors="replace") as fo, open(imp, errors="replace") as fi, open(mod, errors="replace") as fm:
@@ -29,9 +58,9 @@ def ops_correspondence(res, scratch, cmd, tier, label, min_ops):
             if a != b and len(diffs) < 20:
                 diffs.append({"op": o.strip(), "impl": a.strip(), "model": b.strip()})
     nl = [sum(1 for _ in open(f, errors="replace")) for f in (ops, imp, mod)]
-    ok = p.returncode == 0 and not diffs and nl[0] == nl[1] == nl[2] and n >= min_ops
+    ok = drc == 0 and not diffs and nl[0] == nl[1] == nl[2] and n >= min_ops
     res.add(core.ob(f"{label}: model ≙ impl on {n} operations (line protocol)", "correspondence", ok,
-                    json.dumps(diffs[:3], ensure_ascii=False) + f" lines={nl} " + p.stderr.decode(errors="replace")[-300:]))
+                    json.dumps(diffs[:3], ensure_ascii=False) + f" lines={nl} " + derr[-300:]))
     for f in (ops, imp, mod):
         os.unlink(f)
     return stats, samples, diffs
